@@ -1,2 +1,4 @@
 pub mod crdt;
 pub mod stream;
+pub mod wire;
+pub mod cmdgen;
